@@ -259,6 +259,45 @@ def run(chk):
             if abs(used - fd) > 1e-5 * abs(fd):
                 chk.fail("sweep speed used by the evolution equals -d(m_to)/dt (main model)", dict(feh=feh, t=t, m_to=mto, mmax=300.0),
                          dict(used=used, finite_difference=fd))
+    # ---- late ages, every row: the property quantifies over ages up to 1e6 Myr (turn-off masses down to ~0.3 Msun, where some rows' WD
+    #      relation has already dropped to zero or below) ------------------------------------------------------------------------------
+    late_exprs, late_meta = [], []
+    for feh, a0, a1, a2 in rows:
+        try:
+            car = U.base_emf(FeH=feh)
+        except Exception as e:  # noqa
+            chk.notes.append("carrier could not be built at FeH=%s: %s" % (feh, type(e).__name__))
+            continue
+        mb = car.massbins
+        y0 = mb.initial_values(N0=car.N0)
+        for _ in range(5 if chk.tier == "quick" else 30):
+            t = 10 ** rng.uniform(math.log10(1.4e4), 6.0)
+            isev = int(np.where(t > car.tms_u)[0][0])
+            mto = float(car.compute_mto(np.array(t)))
+            m1 = float(mb.bins.MS.lower[isev])
+            Ns, alpha, Nr, Mr = mb.unpack_values(y0.copy(), grouped_rem=True)
+            if not (mto > m1 * (1 + 1e-6)):
+                continue
+            try:
+                dNs = mb.unpack_values(car._derivs_sev(t, y0.copy()), grouped_rem=True)[0]
+            except ValueError:
+                chk.count("late ages whose WD mass falls below the lowest WD bin (lookup raises; ages beyond the documented 14 Gyr of C04)")
+                continue
+            dNdm = float(Ns[isev] / Pk(alpha[isev], 1, m1, mto) * mto ** alpha[isev])
+            used = float(-dNs[isev] / dNdm)
+            h = t * 1e-6
+            fd = -float(car.compute_mto(np.array(t + h)) - car.compute_mto(np.array(t - h))) / (2 * h)
+            chk.count("sweep speed vs finite difference (ages 1.4e4 - 1e6 Myr, all rows)")
+            chk.note_distinct(dict(feh=feh, t=t, late=True))
+            if abs(used - fd) > 1e-5 * abs(fd):
+                chk.fail("sweep speed used by the evolution equals -d(m_to)/dt (main model)",
+                         dict(feh=feh, t=t, m_to=mto, m_rem=float(car.IFMR.predict(mto))), dict(used=used, finite_difference=fd))
+            late_exprs.append("dmdt (O:=F_ops) %s %s" % (" ".join(map(C.fl, (a0, a1, a2))), C.fl(t)))
+            late_meta.append(dict(feh=feh, t=t, used=used))
+    for me, mv in zip(late_meta, C.eval_cases("C14late", IMPORTS, "", late_exprs)):
+        ncmp += 1
+        if not C.close_float(me["used"], mv, rtol=1e-8):
+            dis.append(dict(input=dict(feh=me["feh"], t=me["t"], which="speed_main (late age)"), impl=me["used"], model=mv))
     chk.correspondence("dmdt (1e-8) vs the speed observed in _derivs_sev and in the captured _derivs_BHs", ncmp, dis)
     chk.trusted += [
         "translators harness/gen_tables.py (msto.dat -> exact decimals) and harness/gen_formulas.py (ast -> Gallina)",
